@@ -6,6 +6,7 @@ CONSTANTS
   PreStates = {"absent", "free", "R1", "Q"}
   MaxRej = 1
   FreeRefs = TRUE
+  Grabs = TRUE
   MaxEdits = 4
   MaxFaults = 1
   MaxRecs = 5
